@@ -174,15 +174,17 @@ class Run:
 
     def cbmc(self, oid, sources, function, unwind=None, unwindset=None, flags=(), backends=('cadical',),
              timeout=None, defines=(), functions=None, bounds='', what='', witness=True, checks=None,
-             stubs=(), assumptions=(), leak=False, inputs_from_trace=True, object_bits=None):
+             stubs=(), assumptions=(), leak=False, inputs_from_trace=True, object_bits=None, prebuilt=None):
         """One Engine A obligation: harness `function` over `sources` (paths). Returns Ob."""
         ob = Ob(oid, 'A:cbmc', functions or [function], bounds, what)
+        if getattr(self, 'only', None) and not any(x in oid for x in self.only): return ob      # debugging filter (--only)
+        if getattr(self, 'keep_pred', None) is not None and not self.keep_pred(oid): return ob   # sweep of a cross-cutting property: not part of it
         ob.stubs = list(stubs); ob.assumptions = list(assumptions)
         ob.harness = dict(sources=list(sources), function=function, defines=list(defines))
         timeout = timeout or (150 if self.tier == 'quick' else 900)
         with self.sem:
             try:
-                gb = self.link(sources, defines, tag=oid.replace('/', '_'))
+                gb = prebuilt[0] if prebuilt else self.link(sources, defines, tag=oid.replace('/', '_'))   # prebuilt = (goto binary, witness twin or None)
                 base = ['--function', function, '--drop-unused-functions', '--no-malloc-may-fail',
                         '--unwinding-assertions']
                 if unwind is not None: base += ['--unwind', str(unwind)]
@@ -192,7 +194,7 @@ class Run:
                 if leak: chk.append('--memory-leak-check')
                 # witness twin: same program, -DWITNESS adds a final assert(0) that must FAIL
                 if witness:
-                    gbw = self.link(sources, tuple(defines) + ('WITNESS',), tag=oid.replace('/', '_') + '_w')
+                    gbw = prebuilt[1] if prebuilt else self.link(sources, tuple(defines) + ('WITNESS',), tag=oid.replace('/', '_') + '_w')
                     wargs = [a for a in base if a != '--unwinding-assertions'] + ['--no-unwinding-assertions', '--no-standard-checks'] + list(flags)
                     wb, wres, wt = self.race(gbw, wargs, backends, timeout)
                     ob.queries += 1
